@@ -40,6 +40,7 @@ MIN_NONTRIVIAL = {'quick': 1000, 'thorough': 30000}
 REQUIRED_MONITORS = ['battery', 'baseline', 'baseline:other-order', 'baseline:other-hashseed', 'shadow-cache:compare',
                      'shadow-cache:stored', 'fresh-object', 'state-audit',
                      'object-reuse', 'object-reuse:dry-run-between',
+                     'object-reuse:plain-parse_tracts', 'deduce-restricted',
                      'trs-from-trs-object', 'builders-follow-master']
 SHARD_TIMEOUT = {'quick': 600, 'thorough': 5400}
 
@@ -319,7 +320,8 @@ def audit_state(pytrs):
 OPS = ['parse', 'parse-probe-other-cfg', 'master', 'master-toggle-restore',
        'clear', 'usecache', 'warm', 'mutate', 'keep', 'churn', 'mutate-trs',
        'shared-config-with-keywords', 'api-variants',
-       'clear-then-warm-variants', 'object-reuse', 'trs-from-trs-object']
+       'clear-then-warm-variants', 'object-reuse', 'trs-from-trs-object',
+       'deduce-restricted']
 
 
 def check_builders(pytrs, ctx, case, when):
@@ -382,6 +384,28 @@ def do_step(op, rng, pytrs, kept, ctx, case):
         check_builders(pytrs, ctx, case, 'while MasterConfig is toggled')
         MC.default_ns, MC.default_ew = saved
         check_builders(pytrs, ctx, case, 'after MasterConfig was restored')
+    elif op == 'deduce-restricted':
+        # the layout question asked with a restricted list of candidates
+        # (often excluding the true one) about texts that are parsed later
+        from pytrs.parser.plssdesc import plss_parse as PP
+        for txt, cfg in PROBE_PLSS:
+            cands = rng.sample(['TRS_desc', 'desc_STR', 'S_desc_TR',
+                                'TR_desc_S'], 2)
+            d = P(txt, config=cfg, wait_to_parse=True)
+            answers = [(cands, d.deduce_layout(candidates=cands)),
+                       (cands[:1], PP.deduce_layout(d.pp_desc,
+                                                    candidates=cands[:1])),
+                       (cands, PP.deduce_layout(txt, candidates=cands))]
+            ctx.hit('deduce-restricted')
+            # Absolute: only the layouts asked about (or copy_all) can be
+            # the answer -- whatever was asked about this text before.
+            for asked, got in answers:
+                if got not in asked + ['copy_all']:
+                    ctx.violation(
+                        'deduce_layout-answers-another-question', case,
+                        f"deduce_layout of {txt!r} with candidates {asked} "
+                        f"returned {got!r}", dedup='deduce-restricted')
+                    break
     elif op == 'clear':
         TRS._clear_cache()
     elif op == 'usecache':
@@ -538,10 +562,25 @@ def do_step(op, rng, pytrs, kept, ctx, case):
             fresh = make()
             fresh.parse(**kw)
             if plss and rng.random() < 0.5:
+                held = snap(obj)
                 for t in obj.tracts:
                     t.parse(commit=False, qq_depth=rng.choice([1, 3]))
                 obj.parse_tracts()
                 fresh.parse_tracts()
+                # Absolute, not differential (the fresh object goes through
+                # the same two steps): a plain parse_tracts() re-parses under
+                # the settings the tracts were given, so lots, aliquots and
+                # flags -- the description's own among them -- are as before.
+                ctx.hit('object-reuse:plain-parse_tracts')
+                if snap(obj) != held:
+                    i, x, y = first_diff(snap(obj), held)
+                    ctx.violation(
+                        'plain-parse_tracts-changes-results', case,
+                        f"{text!r} (config {c0!r}) parsed with {kw}, then "
+                        f"parse_tracts() without arguments: tract now "
+                        f"{short(repr(x), 200)}, before "
+                        f"{short(repr(y), 200)}", dedup='plain-parse_tracts')
+                    break
             ctx.hit('object-reuse')
             a, b = snap(obj), snap(fresh)
             if a != b:
